@@ -26,6 +26,7 @@ type C11Case struct {
 	Mode   string  `json:"mode"`
 	Ops    []C11Op `json:"ops"`
 	Probes []int   `json:"probes"` // rank probes (mod size) for read counting
+	Fast   bool    `json:"fast,omitempty"` // fast index enabled (lookups of the latest version may be answered by it)
 }
 
 func genC11(t *rapid.T) C11Case {
@@ -84,6 +85,7 @@ func genC11(t *rapid.T) C11Case {
 		c.Ops = append(c.Ops, C11Op{Kind: "save"})
 	}
 	c.Probes = rapid.SliceOfN(rapid.IntRange(0, 1<<20), 3, 6).Draw(t, "probes")
+	c.Fast = rapid.IntRange(0, 2).Draw(t, "fast") == 0
 	return c
 }
 
@@ -104,7 +106,7 @@ func runC11(c C11Case) (v *Violation, st c11Stats) {
 	viol := func(obs, f string, a ...any) *Violation { return &Violation{Prop: "C11", Obs: obs, Msg: fmt.Sprintf(f, a...)} }
 	db := NewTraceDB()
 	db.NoJournal = true
-	tr := iavl.NewMutableTree(db, 0, true, iavl.NewNopLogger())
+	tr := iavl.NewMutableTree(db, 0, !c.Fast, iavl.NewNopLogger())
 	if _, err := tr.Load(); err != nil {
 		return viol("harness", "%v", err), st
 	}
@@ -118,7 +120,16 @@ func runC11(c C11Case) (v *Violation, st c11Stats) {
 	vers := map[int64]verT{}
 	var latest int64
 	val := []byte("v")
-	checkTree := func(name string, it *iavl.ImmutableTree, kv map[string][]byte, root *RNode, fresh func() *iavl.ImmutableTree) *Violation {
+	var gone map[string][]byte
+	type lookups interface {
+		Size() int64
+		Height() int8
+		Get(key []byte) ([]byte, error)
+		Has(key []byte) (bool, error)
+		GetWithIndex(key []byte) (int64, []byte, error)
+		GetByIndex(index int64) ([]byte, []byte, error)
+	}
+	checkTree := func(name string, it lookups, kv map[string][]byte, root *RNode, fresh func() *iavl.ImmutableTree) *Violation {
 		skv := sortedKVs(kv)
 		sz, h := it.Size(), int(it.Height())
 		if sz != int64(len(skv)) {
@@ -146,6 +157,13 @@ func runC11(c C11Case) (v *Violation, st c11Stats) {
 			if err != nil || !bytes.Equal(k2, e.K) || !bytes.Equal(v3, e.V) {
 				return viol("rank", "%s: GetByIndex(%d)=%q,%q,%v want %q", name, i, k2, v3, err, e.K)
 			}
+			// the existence test and the lookup by key agree with the lookup by rank
+			if has, err := it.Has(e.K); err != nil || !has {
+				return viol("rank", "%s: Has(%q)=%v,%v although GetByIndex(%d) returns the key", name, e.K, has, err, i)
+			}
+			if g, err := it.Get(e.K); err != nil || !bytes.Equal(g, e.V) || g == nil {
+				return viol("rank", "%s: Get(%q)=%q,%v although GetByIndex(%d) returns the key", name, e.K, g, err, i)
+			}
 			// absent neighbour: insertion rank
 			ak := append(cp(e.K), 0)
 			if _, ok := kv[string(ak)]; !ok {
@@ -153,6 +171,18 @@ func runC11(c C11Case) (v *Violation, st c11Stats) {
 				if err != nil || v2 != nil || idx != int64(i+1) {
 					return viol("rank", "%s: GetWithIndex(absent %q)=%d,%q,%v want %d,nil", name, ak, idx, v2, err, i+1)
 				}
+			}
+		}
+		for k := range gone {
+			// keys of the last committed version that the tree under test no longer holds
+			if _, ok := kv[k]; ok {
+				continue
+			}
+			idx, v2, err := it.GetWithIndex([]byte(k))
+			has, herr := it.Has([]byte(k))
+			g, gerr := it.Get([]byte(k))
+			if err != nil || herr != nil || gerr != nil || v2 != nil || has || g != nil {
+				return viol("rank", "%s: removed key %q: GetWithIndex=%d,%q,%v Has=%v,%v Get=%q,%v (all must report absence)", name, k, idx, v2, err, has, herr, g, gerr)
 			}
 		}
 		for _, oob := range []int64{sz, sz + 5, -1} {
@@ -254,9 +284,13 @@ func runC11(c C11Case) (v *Violation, st c11Stats) {
 	st.doubleRot = refCnt.DoubleRot - cnt0.DoubleRot
 	st.versions = int(latest)
 	// working tree (may hold uncommitted nodes): structure only
-	if x := checkTree("working tree", tr.ImmutableTree, work, wroot, nil); x != nil {
+	if latest > 0 {
+		gone = vers[latest].kv
+	}
+	if x := checkTree("working tree", tr, work, wroot, nil); x != nil { // through the MutableTree's own methods
 		return x, st
 	}
+	gone = nil
 	vs := make([]int64, 0, len(vers))
 	for ver := range vers {
 		vs = append(vs, ver)
